@@ -118,6 +118,10 @@ pub fn op_fmt(job: &J) -> Result<J, String> {
             out["parse2"] = json!("ok");
             let (imps2, tree2) = erase(&m2);
             let c2 = comments(&e2, &out1);
+            if job["trees"].as_bool().unwrap_or(false) {
+                out["tree1"] = json!(tree1);
+                out["tree2"] = json!(tree2);
+            }
             out["imports_eq"] = json!(imps1 == imps2);
             if imps1 != imps2 {
                 out["imports"] = json!([imps1, imps2]);
